@@ -29,6 +29,7 @@ pub fn run(id: &str) -> Result<String, String> {
         "F51" => f51(),
         "F59" => f59(),
         "F64" => f64_crai(),
+        "F69" => f69(),
         _ => Err(format!("unknown witness {id}")),
     }
 }
@@ -799,4 +800,20 @@ fn f64_crai() -> Result<String, String> {
         cases += 1;
     }
     Ok(format!("\"cases\":{cases}"))
+}
+
+/// F69 (known): a mapped record WITHOUT bases (SEQ *) whose CIGAR has M ops makes the CRAM writer panic (cigar_to_features indexes the empty
+/// sequence) instead of writing it or refusing it with an error.
+fn f69() -> Result<String, String> {
+    use noodles_sam as sam; use sam::alignment::io::Write as _;
+    let refseq: Vec<u8> = (0..2000).map(|i| b"ACGT"[(i * 7 + i / 3) % 4]).collect();
+    let header: sam::Header = "@HD\tVN:1.6\n@SQ\tSN:sq0\tLN:2000\n".parse().map_err(|e| format!("header: {e}"))?;
+    let repo = noodles_fasta::Repository::new(vec![noodles_fasta::Record::new(noodles_fasta::record::Definition::new("sq0", None), noodles_fasta::record::Sequence::from(refseq))]);
+    let recs: Vec<sam::alignment::RecordBuf> = sam::io::Reader::new(&b"a\t0\tsq0\t10\t30\t8M\t*\t0\t0\t*\t*\n"[..]).record_bufs(&header).collect::<Result<_, _>>().map_err(|e| format!("sam: {e}"))?;
+    std::panic::set_hook(Box::new(|_| {}));
+    let r = std::panic::catch_unwind(std::panic::AssertUnwindSafe(|| -> std::io::Result<()> {
+        let mut w = noodles_cram::io::writer::Builder::default().set_reference_sequence_repository(repo.clone()).build_from_writer(Vec::new());
+        w.write_header(&header)?; for r in &recs { w.write_alignment_record(&header, r)?; } w.try_finish(&header) }));
+    let _ = std::panic::take_hook();
+    match r { Err(_) => Err("the CRAM writer PANICS on a mapped record without bases (SEQ *) whose CIGAR has M ops".into()), Ok(_) => Ok("\"cases\":1".into()) }
 }
